@@ -9,7 +9,8 @@ Fixpoint zlist_eqb (a b : list Z) : bool :=
   | _, _ => false
   end.
 
-Definition find_font (name : list Z) : option bfont := find (fun b => zlist_eqb (bf_name b) name) fonts.
+(* the crate-private NULL_FONT is addressable as "null::NULL_FONT" *)
+Definition find_font (name : list Z) : option bfont := find (fun b => zlist_eqb (bf_name b) name) (null_font :: fonts).
 Definition find_mapping (name : list Z) : option bmapping := find (fun m => zlist_eqb (bm_name m) name) mappings.
 Definition mapping_of (b : bfont) : option bmapping := nth_error mappings (Z.to_nat (bf_map b)).
 
